@@ -4,7 +4,7 @@
     unit, list, prod, sumbool, sumor). *)
 Require Extraction.
 Require Import ExtrOcamlBasic.
-From Age Require Import Base Base64 Format FormatIO IO Stream Armor Bech32 Prims Recipients Age KeyFile Plugin SshEnc Cli.
+From Age Require Import Base Base64 Format FormatIO IO Stream Armor Bech32 Prims Recipients Age KeyFile Plugin SshEnc Cli Crypto.
 Extraction Blacklist List String Int Bytes.
 Extraction "model.ml"
   Base.n2b Base.b2n Base.split_on Base.join_on Base.dec_of_N
@@ -19,6 +19,8 @@ Extraction "model.ml"
   Bech32.encode_plugin_identity Bech32.parse_plugin_identity
   Bech32.encode_plugin_recipient Bech32.parse_plugin_recipient
   Bech32.valid_plugin_name Bech32.new_identity_without_data Bech32.plugin_exe
+  Crypto.sha256_bytes Crypto.hmac_sha256 Crypto.hkdf32_sha256 Crypto.chapoly_seal Crypto.chapoly_open
+  Crypto.x25519_go Crypto.scrypt_bytes Crypto.GP
   Prims.mkPrims Recipients.wrap Recipients.unwrap Recipients.unwrap_one
   Age.plan_encrypt Age.file_bytes Age.encrypt_bytes Age.encrypt_session Age.armored_session
   KeyFile.parse_identities KeyFile.parse_recipients KeyFile.cli_parse_identities KeyFile.cli_parse_recipients KeyFile.scan_lines
